@@ -6,6 +6,7 @@ for s in "$@"; do
   for p in C01 C02 C03 C04 C05 C06 C07 C08 C09 C10 C11 C12 C13 C14 C15 C16 C17 C18; do
     out=$(VERIF_SEED=$s VERIF_NO_EVIDENCE=1 ./check $p $tier 2>&1); rc=$?
     echo "seed=$s $p rc=$rc $(echo "$out" | grep -E 'seed=' | tail -1)"
-    [ $rc -ne 0 ] && echo "$out" | grep -E -A3 'VIOLATION|INCONCLUSIVE' | head -20
+    if [ $rc -ne 0 ]; then echo "$out" | grep -E -A3 'VIOLATION|INCONCLUSIVE' | cut -c1-400 | head -20; bad=1; fi
   done
 done
+exit ${bad:-0}
